@@ -2,7 +2,8 @@
 /verif/seeded/<id>/ whose meta.json says the property's check must detect them) is applied to a scratch copy of the *current*
 sources under a fresh mktemp -d outside /repo and /verif, the check is run against that copy and must report a violation
 (exit 1) naming one of the expected rules; the scratch copy is removed afterwards.  A variant whose patch no longer applies to
-the current sources is skipped and reported (it is not a failure: the code it targeted has moved)."""
+the current sources is skipped and reported (it is not a failure: the code it targeted has moved).  The other direction is
+tested too: every behaviour-preserving variant under /verif/selftest/refactors must leave the check silent (exit 0)."""
 import glob
 import json
 import os
@@ -81,6 +82,50 @@ def run(prop, verbose=False):
                     ok = False
             finally:
                 shutil.rmtree(d, ignore_errors=True)
+    # the other direction: behaviour-preserving variants (selftest/refactors/*.patch, see DESIGN.md §8) must leave the check silent
+    silent, limits, loud, stale = 0, [], [], 0
+    patches = sorted(glob.glob(os.path.join(VERIF, "selftest", "refactors", "*.patch")))
+
+    def one(pth):
+        d = _scratch_copy()
+        try:
+            p = subprocess.run(["patch", "-p1", "-s", "-f", "--no-backup-if-mismatch", "-d", d, "-i", pth], stdout=subprocess.PIPE, stderr=subprocess.STDOUT, text=True)
+            if p.returncode != 0:
+                return ("stale", pth, "")
+            c = subprocess.run([sys.executable, os.path.join(VERIF, "check"), prop, "--repo", d, "--tier", "quick", "--no-evidence"],
+                               stdout=subprocess.PIPE, stderr=subprocess.STDOUT, text=True)
+            if c.returncode == 0:
+                return ("silent", pth, "")
+            tol = ""
+            with open(pth) as fh:
+                for ln in fh:
+                    if ln.startswith("# tolerate-exit-2:"):
+                        tol = ln[len("# tolerate-exit-2:"):].split("--")[0]
+                    if not ln.startswith("#"):
+                        break
+            if c.returncode == 2 and prop in [x.strip() for x in tol.replace(",", " ").split()]:
+                return ("limit", pth, "")
+            first = [ln for ln in c.stdout.splitlines() if ln.startswith("  at") or ln.startswith("ANALYSIS-BROKEN")][:1]
+            return ("loud", pth, "exit %d %s" % (c.returncode, (first[0][:160] if first else "")))
+        finally:
+            shutil.rmtree(d, ignore_errors=True)
+    if patches:
+        from concurrent.futures import ThreadPoolExecutor
+        with ThreadPoolExecutor(max_workers=4) as ex:
+            for kind, pth, info in ex.map(one, patches):
+                nm = os.path.basename(pth)[:-6]
+                if kind == "silent":
+                    silent += 1
+                elif kind == "limit":
+                    limits.append(nm)
+                elif kind == "stale":
+                    stale += 1
+                else:
+                    loud.append("%s: %s" % (nm, info))
+        results.append("behaviour-preserving variants: %d silent, %d documented limit(s)%s, %d stale%s" % (
+            silent, len(limits), (" " + ",".join(limits)) if limits else "", stale, ("; FALSE ALARM on " + " | ".join(loud)) if loud else ""))
+        if loud:
+            ok = False
     if not results:
         return {"ok": True, "summary": "no stored variants for %s" % prop}
     return {"ok": ok, "summary": "; ".join(results)}
